@@ -33,7 +33,7 @@ class C20(object):
     exhaustive = {'thorough': True}
 
     def gen(self, rng, tier):
-        n = 220 if tier == 'quick' else 5000
+        n = 220 if tier == 'quick' else 30000
         if tier == 'thorough':
             for k in range(1, 9):
                 for m in range(1, 7):
